@@ -134,8 +134,9 @@ fn real_main() -> i32 {
                 let case = prop.make(seed, r, tier);
                 seams::log_reset(case.cfg.variant != "prod");
                 let mut ctx = runner::Ctx::new(tier);
+                let t = std::time::Instant::now();
                 let vs = prop.exec(&case, &mut ctx);
-                println!("inproc {} run {r}: evals={} violations={}", prop.id(), ctx.evals, vs.len());
+                println!("inproc {} run {r}: evals={} violations={} ms={}", prop.id(), ctx.evals, vs.len(), t.elapsed().as_millis());
                 for v in &vs {
                     println!("  {} | {} | {}", v.clause, v.class, v.msg);
                 }
